@@ -84,6 +84,7 @@ type c17HMon struct {
 	events   int64
 	aborted  int32
 	teardown int32
+	rt       *runtime
 }
 
 type c17HClient struct {
@@ -105,7 +106,14 @@ func c17Yaml(port, maxConn int) string {
 func (m *c17HMon) inconclusive(why string) {
 	atomic.AddInt32(&c17Stalls, 1)
 	if atomic.CompareAndSwapInt32(&m.aborted, 0, 1) {
-		m.r.Inconclusive(why + fmt.Sprintf(" [kind=%s cap=%d new=%d]", m.cs.Kind, m.cs.Cap, m.cs.NewCap))
+		st := ""
+		if m.rt != nil {
+			st = fmt.Sprintf(" runtime state=%s err=%v", m.rt.getState(), m.rt.getError())
+		}
+		m.mu.Lock()
+		g := m.gauge
+		m.mu.Unlock()
+		m.r.Inconclusive(why + fmt.Sprintf(" [kind=%s cap=%d new=%d open=%d%s]", m.cs.Kind, m.cs.Cap, m.cs.NewCap, g, st))
 	}
 }
 
@@ -295,21 +303,30 @@ func c17ServedCount(cs []*c17HClient) int {
 	return n
 }
 
-func c17FreePort() int {
-	l, err := net.Listen("tcp", "127.0.0.1:0")
-	if err != nil {
-		return 0
+// c17FreePort picks a port below the ephemeral range (so that no outgoing connection of a
+// neighbouring process can take it as its source port in the meantime) that can be bound on all
+// interfaces right now.
+func c17FreePort(rng *rand.Rand) int {
+	for try := 0; try < 200; try++ {
+		p := 10000 + rng.Intn(20000)
+		l, err := net.Listen("tcp", fmt.Sprintf(":%d", p))
+		if err != nil {
+			continue
+		}
+		l.Close()
+		return p
 	}
-	defer l.Close()
-	return l.Addr().(*net.TCPAddr).Port
+	return 0
 }
 
 func c17HRun(r *kit.Run, cs *c17HCase, rng *rand.Rand) {
 	m := &c17HMon{r: r, cs: cs, bound: cs.Cap, ctx: "steady:initial"}
 	var rt *runtime
 	var port int
-	for try := 0; try < 5 && rt == nil; try++ {
-		port = c17FreePort()
+	lastErr := ""
+	prng := rand.New(rand.NewSource(time.Now().UnixNano() ^ int64(os.Getpid())<<20)) // port choice only; not part of the case
+	for try := 0; try < 8 && rt == nil; try++ {
+		port = c17FreePort(prng)
 		ss, err := supervisor.NewSpec(c17Yaml(port, cs.Cap))
 		if err != nil {
 			r.Inconclusive("spec rejected: " + err.Error())
@@ -336,6 +353,7 @@ func c17HRun(r *kit.Run, cs *c17HCase, rng *rand.Rand) {
 		if ok && x.getState() == stateRunning {
 			rt = x
 		} else {
+			lastErr = fmt.Sprintf("state=%s err=%v port=%d", x.getState(), x.getError(), port)
 			x.Close()
 			if !ok {
 				return
@@ -343,9 +361,10 @@ func c17HRun(r *kit.Run, cs *c17HCase, rng *rand.Rand) {
 		}
 	}
 	if rt == nil {
-		r.Inconclusive("runtime could not listen")
+		r.Inconclusive("runtime could not listen: " + lastErr)
 		return
 	}
+	m.rt = rt
 	addr := fmt.Sprintf("127.0.0.1:%d", port)
 	reload := func(n int) {
 		ss, err := supervisor.NewSpec(c17Yaml(port, n))
@@ -482,7 +501,7 @@ func TestVerif_C17_HTTPRuntime(t *testing.T) {
 	r.Rule("a real httpserver runtime (fsm + http.Server + gnet.Listen + LimitListener) per case on a loopback port with maxConnections = cap in 2..6 and cap+4..cap+8 raw keep-alive HTTP clients that hold their connection; kinds: steady + reuse of released capacity | grow through a reload event | shrink through a reload event (observed in force on fresh waves) | shrink-then-grow in two back-to-back reloads at saturation | repeated identical reloads; oracle: clients that got a response and have not closed <= cap in force at every response; a held connection still answers a second request before it is closed; distinct = (kind, cap, new cap, max served)")
 	r.Assume("the completion of a shrinking reload is not observable through the runtime, so after it the bound of the oracle stays at the old cap and the new cap is only observed (progress)")
 	kinds := []string{"steady-reuse", "grow", "shrink", "shrink-then-grow-b2b", "repeated-identical"}
-	n := r.N(30, 400)
+	n := r.N(40, 1000)
 	for i := 0; i < n; i++ {
 		if !r.Mine(i) {
 			continue
